@@ -11,3 +11,4 @@ pub mod plan;
 pub mod codec;
 pub mod sweeps;
 pub mod c14;
+pub mod c17;
